@@ -263,6 +263,7 @@ type kvRun struct {
 	win      *windowRun
 	fullDefault []sgbucket.FeedEvent // every event the full live feed of the default collection received
 	curCas   map[string]uint64 // (coll/key) -> CAS at the last read-back (0: no row)
+	curXs    map[string]map[string]string // (coll/key) -> xattrs at the last read-back
 	lostUpdate string          // an optimistic write accepted on top of a version its callback was never shown
 }
 
@@ -573,6 +574,14 @@ func (k *kvRun) snapshot() (Term, error) {
 			class := "absent"
 			if ev, ok := byKey[key]; ok {
 				_, xs, _, _ := c.GetWithXattrs(ctxBg, key, kvXnames)
+				if k.curXs == nil {
+					k.curXs = map[string]map[string]string{}
+				}
+				cx := map[string]string{}
+				for n, v := range xs {
+					cx[n] = string(v)
+				}
+				k.curXs[cn+"/"+key] = cx
 				class = "live"
 				if ev.Opcode == sgbucket.FeedOpDeletion {
 					class = "tomb"
@@ -1119,10 +1128,15 @@ func (k *kvRun) doKv(st Step) (opT Term, respT Term, err error) {
 		opT = C("KWriteUpdateWithXattrs", cbT, macrosTerm(op.Macros))
 		calls := 0
 		var shown uint64
+		var shownXs map[string]string
 		co, e := c.WriteUpdateWithXattrs(ctxBg, key, kvXnames, 0, nil, mutateOpts(op.Preserve, op.Macros),
 			func(doc []byte, xattrs map[string][]byte, cas uint64) (sgbucket.UpdatedDoc, error) {
 				calls++
 				shown = cas
+				shownXs = map[string]string{}
+				for n, v := range xattrs {
+					shownXs[n] = string(v)
+				}
 				k.windowPass()
 				if cb.Kind == "fail" || calls > 2 {
 					return sgbucket.UpdatedDoc{}, errors.New("callback failure")
@@ -1143,6 +1157,13 @@ func (k *kvRun) doKv(st Step) (opT Term, respT Term, err error) {
 			// the one the nested call left
 			if cur := k.curCas[st.Coll+"/"+st.Key]; cur != 0 && shown != cur {
 				k.lostUpdate = fmt.Sprintf("WriteUpdateWithXattrs on %s/%s wrote on top of CAS %d, which its callback was never shown (it was last shown CAS %d)", st.Coll, st.Key, cur, shown)
+			} else if cur != 0 {
+				cx := k.curXs[st.Coll+"/"+st.Key]
+				for _, n := range kvXnames {
+					if a, b := shownXs[n], cx[n]; a != b {
+						k.lostUpdate = fmt.Sprintf("WriteUpdateWithXattrs on %s/%s wrote on top of a version whose xattr %s is %q; its callback was last shown %q", st.Coll, st.Key, n, b, a)
+					}
+				}
 			}
 		}
 	case "WriteSubDoc":
